@@ -272,9 +272,7 @@ pub fn finish(
     "known_findings_matched": known,
     "caps_hit": total.caps,
     "configuration": ctx.config,
-    "evaluations": total.transitions.max(1),
-    "distinct_nontrivial": (total.states.max(2)),
-    "rule": "states = distinct enumerated configurations (alphabet elements / reached values / schedules); every state is non-trivial by construction of the alphabet (border classes, reachable values); transitions = implementation calls compared with the reference model",
+    "rule": "states = distinct enumerated configurations (alphabet elements / reached values / schedules), counted by the engine; transitions = implementation calls executed on them; traces_validated_against_impl = reference-model predictions compared with an actual implementation result; distinct_outcomes = number of distinct results observed (capped at 200000), the anti-vacuity counter",
   });
   if distinct <= 1 && total.transitions > 100 {
     coverage["explanation"] = json!("SUSPICIOUS: a single distinct outcome over many executions");
